@@ -25,7 +25,7 @@ Seeds == 0..7
 Exp == <<[k |-> "noncrash"]>>
 Case(seed, m) == [op |-> "tz_hostile", seed |-> seed, mut |-> m, exp |-> Exp]
 
-CountVals == {"zero", "one", "minus1", "plus1", "b255", "p31", "max", "big"}
+CountVals == {"zero", "one", "minus1", "plus1", "b255", "p31", "max", "big", "plus256", "v256", "v257", "plus65536"}
 Counts == {[kind |-> "count", blk |-> b, field |-> f, val |-> v] : b \in {1, 2}, f \in 0..5, v \in CountVals}
 Cuts == {[kind |-> "truncate", at |-> a] : a \in {0, 1, 5, 20, 43, 44, 45, 60, 100, 150, 250, 400, 500, 600, 750, 850, 900, 950, 980, 990, 995, 999}}
 Versions == {[kind |-> "version", val |-> v, both |-> b] : v \in {0, 1, 49, 50, 51, 52, 255}, b \in BOOLEAN}
@@ -52,7 +52,11 @@ Rules == << <<"M","3",".","5",".","0">>, <<"M","1","3",".","1",".","0">>, <<"M",
             <<"M",".","1",".","0">>, <<"M","3",".",".","0">>, <<"M","3",".","1",".">>, <<"M">>, <<"J">>, <<>>, <<"/","2">>,
             <<"M","3",".","5",".","0","/">>, <<"M","3",".","5",".","0","/","2",":","6","0">>,
             <<"M","1","2",".","5",".","6","/","2","4",":","5","9",":","5","9">>, <<"J","6","0","/","1","6","7",":","5","9",":","5","9">>,
-            <<"M","2","5","5",".","2","5","5",".","2","5","5">>, <<"M","2","5","6",".","1",".","0">>, <<"M","3",".","5",".","0","x">> >>
+            <<"M","2","5","5",".","2","5","5",".","2","5","5">>, <<"M","2","5","6",".","1",".","0">>, <<"M","3",".","5",".","0","x">>,
+            \* the plain day-of-year form with oversized numbers (u32::MAX, u32::MAX + 1, 20 nines), 366 and 367
+            <<"4","2","9","4","9","6","7","2","9","5">>, <<"4","2","9","4","9","6","7","2","9","6">>,
+            <<"9","9","9","9","9","9","9","9","9","9","9","9","9","9","9","9","9","9","9","9">>, <<"3","6","7">>,
+            <<"J","4","2","9","4","9","6","7","2","9","5">>, <<"M","4","2","9","4","9","6","7","2","9","5",".","1",".","0">> >>
 \* well-formed rules in every month: evaluated at both ends of the representable range, where the
 \* rule day itself may not be representable
 MonthDigits(m) == IF m < 10 THEN <<CHOOSE c \in {"1","2","3","4","5","6","7","8","9"} : c = <<"1","2","3","4","5","6","7","8","9">>[m]>>
@@ -62,7 +66,7 @@ EveryMonth == UNION {{ <<"M">> \o MonthDigits(m) \o <<".", "5", ".", "0">>, <<"M
 Comma == <<",">>
 FooterText(h, a, b) == Heads[h] \o Comma \o Rules[a] \o Comma \o Rules[b]
 Footers == {[kind |-> "footer", text |-> FooterText(h, a, b), noend |-> FALSE] :
-               h \in 1..Len(Heads), a \in 1..Len(Rules), b \in (IF Thorough THEN 1..Len(Rules) ELSE {1, 2, 5, 7, 10, 13, 18, 25})}
+               h \in 1..Len(Heads), a \in 1..Len(Rules), b \in (IF Thorough THEN 1..Len(Rules) ELSE {1, 2, 5, 7, 10, 13, 18, 25, 34, 36})}
            \cup {[kind |-> "footer", text |-> Heads[h], noend |-> e] : h \in 1..Len(Heads), e \in BOOLEAN}
            \cup {[kind |-> "footer", text |-> Heads[h] \o Comma \o a \o Comma \o b, noend |-> FALSE] :
                    h \in {1, 3}, a \in EveryMonth, b \in {Rules[1], <<"J","1">>, <<"J","3","6","5">>, <<"0">>, <<"M","7",".","3",".","2">>}}
